@@ -27,7 +27,7 @@ func runC03(cfg *runCfg) error {
 		{"random", rsRandomFamily(cfg.seed, n, [5]int{2, 3, 3, 1, 1}, false, false)},
 	}
 	rule := "fixed workloads x every placement of closing faults; random scenarios of 1-4 connections from one submitting goroutine with requests before/while connecting/connected/during outages, refused and failed connects; every connection of the run is judged: PUBLISH packets of different messages in submission order on each connection, first transmissions in submission order, first deliveries of QoS>=1 in submission order; non-trivial = distinct scenario with >= 2 publishes and at least one fault"
-	return rsRunProperty(cfg, "C03", "c03_ok", fams, rule, func(sc *rsScenario, o *rsObs) bool {
+	return rsRunProperty(cfg, "C03", "c03_ok'", fams, rule, func(sc *rsScenario, o *rsObs) bool {
 		return len(sc.Faults) > 0 && len(o.Wire) > 2
 	})
 }
